@@ -63,6 +63,7 @@ Unit(pos_, ekind, ls) ==
       p    == IF pos_ = "optdefault" /\ (okv = {} \/ ekind # "int") THEN "opt" ELSE pos_
       dflt == IF okv = {} THEN JNull ELSE docs[CHOOSE i \in okv : \A j \in okv : i <= j]
   IN PosUnit("C07", p, leaf, docs, dflt)
+     @@ [nobuild |-> IF p = "optdefault" /\ Len(ls) >= 2 THEN <<"DefaultOnNestedArray">> ELSE <<>>]
 
 u == Unit(pos, ek, lims)
 Set == lims # <<>>
